@@ -70,6 +70,8 @@ type gprover struct {
 	pure  int
 	canon map[string]ssa.Value
 	depth int
+	// asserted: per call, the facts its callee establishes by panicking otherwise
+	asserted map[*ssa.Call][]gfact
 }
 
 func newProver(c *Ctx, fn *ssa.Function) *gprover {
@@ -561,6 +563,11 @@ func (p *gprover) factsDom(b *ssa.BasicBlock) []gfact {
 	fs = append(fs, p.inv...)
 	for cur := b; cur.Idom() != nil; cur = cur.Idom() {
 		d := cur.Idom()
+		for _, in := range d.Instrs {
+			if call, ok := in.(*ssa.Call); ok {
+				fs = append(fs, p.assertionFacts(call)...)
+			}
+		}
 		iff, ok := d.Instrs[len(d.Instrs)-1].(*ssa.If)
 		if !ok {
 			continue
@@ -763,18 +770,35 @@ func predicateFacts(c *Ctx, callee *ssa.Function, args []ssa.Value, caller *gpro
 			}
 		}
 	}
+	return mapCalleeFacts(callee, args, caller, out)
+}
+
+// mapCalleeFacts restates facts over a callee's parameters in the caller's terms: a parameter is its argument,
+// len(parameter) the argument's length, and `parameter % k` the same remainder of the argument.
+func mapCalleeFacts(callee *ssa.Function, args []ssa.Value, caller *gprover, out []gfact) []gfact {
+	paramIdx := func(v ssa.Value) int {
+		for i, pr := range callee.Params {
+			if ssa.Value(pr) == v && i < len(args) {
+				return i
+			}
+		}
+		return -1
+	}
 	var mapped []gfact
 	for _, f := range out {
 		e := gk(f.e.c)
 		ok := true
 		for s, k := range f.e.t {
-			idx := -1
-			for i, pr := range callee.Params {
-				if ssa.Value(pr) == s.v {
-					idx = i
+			if b, isB := s.v.(*ssa.BinOp); isB && !s.isLen && b.Op == token.REM {
+				if m, isC := gConstInt(b.Y); isC && m > 0 {
+					if idx := paramIdx(b.X); idx >= 0 {
+						e = e.add(gs(gsym{v: caller.remOf(args[idx], b), isLen: false}), k)
+						continue
+					}
 				}
 			}
-			if idx < 0 || idx >= len(args) {
+			idx := paramIdx(s.v)
+			if idx < 0 {
 				ok = false
 				break
 			}
@@ -789,6 +813,70 @@ func predicateFacts(c *Ctx, callee *ssa.Function, args []ssa.Value, caller *gpro
 		}
 	}
 	return mapped
+}
+
+// remOf: the caller's stand-in for `arg % k`, where the callee computed `param % k` (one per argument and k).
+func (p *gprover) remOf(arg ssa.Value, b *ssa.BinOp) ssa.Value {
+	m, _ := gConstInt(b.Y)
+	key := fmt.Sprintf("rem/%p/%d", arg, m)
+	if v, ok := p.canon[key]; ok {
+		return v
+	}
+	v := &ssa.BinOp{Op: token.REM, X: arg, Y: b.Y}
+	p.canon[key] = v
+	return v
+}
+
+// assertionFacts: what holds after a call to a module function that refuses some arguments by panicking: the facts
+// common to all its returns, in the caller's terms (`requireWholeCodons(len(src))` leaves len(src) % 3 == 0).
+func (p *gprover) assertionFacts(call *ssa.Call) []gfact {
+	if fs, ok := p.asserted[call]; ok {
+		return fs
+	}
+	if p.asserted == nil {
+		p.asserted = map[*ssa.Call][]gfact{}
+	}
+	p.asserted[call] = nil
+	callee := call.Call.StaticCallee()
+	if callee == nil || callee.Blocks == nil || !p.c.inScope(callee) || p.depth >= 2 || callee == p.fn {
+		return nil
+	}
+	panics := false
+	instrs(callee, func(in ssa.Instruction) {
+		if _, ok := in.(*ssa.Panic); ok {
+			panics = true
+		}
+	})
+	if !panics {
+		return nil
+	}
+	q := newProver(p.c, callee)
+	q.depth = p.depth + 1
+	var out []gfact
+	first := true
+	for _, b := range callee.Blocks {
+		if _, ok := b.Instrs[len(b.Instrs)-1].(*ssa.Return); !ok {
+			continue
+		}
+		fs := q.facts(b)
+		if first {
+			out, first = fs, false
+			continue
+		}
+		var keep []gfact
+		for _, f := range out {
+			for _, g := range fs {
+				if q.str(f.e) == q.str(g.e) && f.eq == g.eq && f.neq == g.neq {
+					keep = append(keep, f)
+					break
+				}
+			}
+		}
+		out = keep
+	}
+	fs := mapCalleeFacts(callee, call.Call.Args, p, out)
+	p.asserted[call] = fs
+	return fs
 }
 
 // invariants (P9): inductive lower bounds len(phi) >= L for the slice-typed phis of fn.
